@@ -675,6 +675,13 @@ Theorem ack_reencode : forall bs l delay rest, bytes_ok bs -> pull_ack_frame bs 
 Proof. exact AckReencode.ack_reencode. Qed.
 Print Assumptions ack_reencode.
 
+(* the bytes are reproduced exactly when the re-encoding is not shorter: every varint of the input had the minimal width *)
+Theorem ack_reencode_canonical_iff : forall bs l delay rest bytes', bytes_ok bs ->
+  pull_ack_frame bs = Ok ((l, delay), rest) -> flatten (push_ack_frame l delay) = Ok bytes' ->
+  (bs = bytes' ++ rest <-> Zlen bytes' + Zlen rest = Zlen bs).
+Proof. exact AckReencode.ack_reencode_canonical_iff. Qed.
+Print Assumptions ack_reencode_canonical_iff.
+
 Theorem ack_reencode_nonminimal_refuted :
   (let bs := [64; 10; 7; 2; 1; 2; 0; 1; 2] in
    exists b, reenc_ack bs = Some b /\ b <> bs /\ Zlen b < Zlen bs /\ pull_ack_frame b = pull_ack_frame bs) /\
